@@ -7,8 +7,10 @@ import os
 from hv.core import VERIF_DIR
 
 SETUP = (
-    "/venv/bin/python -c 'import hypothesis' 2>/dev/null || "
-    "/venv/bin/pip install --no-index --find-links /opt/veriftools/wheels hypothesis"
+    "(/venv/bin/python -c 'import hypothesis' 2>/dev/null || "
+    "/venv/bin/pip install --no-index --find-links /opt/veriftools/wheels hypothesis) && "
+    "(PYTHONPATH=/verif/.deps /venv/bin/python -c 'import atheris' 2>/dev/null || "
+    "/venv/bin/pip install --no-index --find-links /opt/veriftools/wheels --target /verif/.deps atheris || true)"
 )
 
 import importlib
